@@ -100,6 +100,8 @@ def build_op(spec):
         return qp.adjoint(build_op(spec[1]))
     if head == "pow":
         return qp.pow(build_op(spec[1]), spec[2])
+    if head == "prodop":  # ["prodop", spec_a, spec_b]: a product of two gates used as ONE operation
+        return qp.prod(build_op(spec[1]), build_op(spec[2]))
     if head == "ctrl":
         kw = {}
         if len(spec) > 3 and spec[3] is not None:
@@ -147,6 +149,8 @@ def array_param(name, k, a):
 
 
 def op_wires(spec):
+    if spec[0] == "prodop":
+        return op_wires(spec[1]) + [x for x in op_wires(spec[2]) if x not in op_wires(spec[1])]
     if spec[0] in ("adjoint", "pow"):
         return op_wires(spec[1])
     if spec[0] == "ctrl":
@@ -159,6 +163,8 @@ def map_op_wires(spec, wmap):
         return ["adjoint", map_op_wires(spec[1], wmap)]
     if spec[0] == "pow":
         return ["pow", map_op_wires(spec[1], wmap), spec[2]]
+    if spec[0] == "prodop":
+        return ["prodop", map_op_wires(spec[1], wmap), map_op_wires(spec[2], wmap)]
     if spec[0] == "ctrl":
         return ["ctrl", map_op_wires(spec[1], wmap), [wmap[w] for w in spec[2]]] + list(spec[3:])
     return [spec[0], [wmap[w] for w in spec[1]], list(spec[2])]
